@@ -113,6 +113,10 @@ class KeyFile:
             with open(filename, "rb") as fp:
                 self.__key = fp.read()
         except OSError:
+            if os.path.exists(filename):
+                # only a key file that does not exist is created; one that is there but cannot
+                # be read (permissions, I/O error) must not be replaced by a new key
+                raise
             self.__key = self.__generate_key()
         else:
             try:
